@@ -83,10 +83,47 @@ func CanonAddr(v ssa.Value) string {
 		case *ssa.MakeInterface:
 			v = x.X
 			continue
+		case *ssa.Call:
+			// the result of a constructor-like helper: every return is an object the helper has just
+			// allocated (and nothing else) — still under construction in the caller
+			if freshResult(x, 0) {
+				return fmt.Sprintf("new:call@%p", x)
+			}
+		case *ssa.Extract:
+			if c, ok := x.Tuple.(*ssa.Call); ok && freshResult(c, x.Index) {
+				return fmt.Sprintf("new:call@%p#%d", c, x.Index)
+			}
 		}
 		break
 	}
 	return fmt.Sprintf("v:%s@%p", v.Name(), v)
+}
+
+// freshResult: result idx of the call is, on every return of the (module-local) callee, an object
+// allocated inside the callee (or nil).
+func freshResult(c *ssa.Call, idx int) bool {
+	g := c.Call.StaticCallee()
+	if g == nil || len(g.Blocks) == 0 || Transparent == nil || !Transparent(g) {
+		return false
+	}
+	n := 0
+	for _, b := range g.Blocks {
+		ret, ok := b.Instrs[len(b.Instrs)-1].(*ssa.Return)
+		if !ok || idx >= len(ret.Results) {
+			continue
+		}
+		for _, rv := range RetVals(ret, idx) {
+			rv = Unwrap(rv)
+			if k, isC := rv.(*ssa.Const); isC && k.Value == nil {
+				continue
+			}
+			if _, isA := rv.(*ssa.Alloc); !isA {
+				return false
+			}
+			n++
+		}
+	}
+	return n > 0
 }
 
 // lockOp classifies a call as a mutex operation.
